@@ -365,10 +365,13 @@ func (gb *gcpBalancer) getReadySubConnRef(boundKey string) (*subConnRef, bool) {
 				if sc, ok := gb.fallbackMap[boundKey]; ok {
 					return gb.scRefs[sc], true
 				}
-				// Try to create fallback mapping.
-				if scRef, err := gb.picker.(*gcpPicker).getLeastBusySubConnRef(); err == nil {
-					gb.fallbackMap[boundKey] = scRef.subConn
-					return scRef, true
+				// Try to create fallback mapping to the least busy ready subconn of the
+				// current picker (if any). This must not grow the pool or take gb.mu again.
+				if gp, ok := gb.picker.(*gcpPicker); ok {
+					if scRef := gp.leastBusyReady(); scRef != nil {
+						gb.fallbackMap[boundKey] = scRef.subConn
+						return scRef, true
+					}
 				}
 			}
 			return nil, true
